@@ -42,6 +42,8 @@ type Analysis struct {
 	Obs      map[string]*Observation
 	Notes    map[string]bool
 	curFrame *Frame
+	// runDefersAt is the RunDefers instruction whose deferred calls are being executed (nil otherwise)
+	runDefersAt ssa.Instruction
 	memo     map[string]*exitState
 	active   map[*ssa.Function]int
 	steps    int
@@ -138,7 +140,7 @@ func (a *Analysis) frameKey(f *Frame) string {
 	for q := f; q != nil; q = q.Parent {
 		s := FuncName(q.Fn)
 		if q.Site != nil {
-			s += "@" + fmt.Sprint(q.Site.Pos())
+			s += "@" + fmt.Sprint(q.Site.Pos()) + q.bindKey
 		}
 		parts = append(parts, s)
 	}
@@ -185,13 +187,14 @@ func (a *Analysis) analyze(f *Frame, entry State) *exitState {
 			if s.IsEmpty() {
 				return
 			}
-			// phi nodes redefine registers: kill atoms mentioning them
+			// phi nodes redefine registers: atoms mentioning them are forgotten, except orderings of the register
+			// itself whose new value is known relative to the old state (initial value, increment)
 			for _, pin := range succ.Instrs {
 				phi, ok := pin.(*ssa.Phi)
 				if !ok {
 					break
 				}
-				s = a.killReg(s, phi)
+				s = a.phiTransfer(f, b, succ, phi, s)
 			}
 			if a.EdgeHook != nil {
 				a.EdgeHook(a, f, b, succ, s)
@@ -269,6 +272,113 @@ func (a *Analysis) analyze(f *Frame, entry State) *exitState {
 	}
 	a.memo[key] = exit
 	return exit
+}
+
+// phiTransfer moves the state along the edge b -> succ across the phi: every atom that mentions the phi register is
+// forgotten, except an ordering "phi ? T" (T not mentioning the phi) when the incoming value e is
+//   - phi + k (k > 0): the ordering shifts as for an increment of a location;
+//   - the term T itself: equality;
+//   - a value X for which the space has the ordering "X ? T", and X has not changed since e was computed: copied.
+func (a *Analysis) phiTransfer(f *Frame, b, succ *ssa.BasicBlock, phi *ssa.Phi, s State) State {
+	sp := a.Space
+	pi := -1
+	for i, p := range succ.Preds {
+		if p == b {
+			pi = i
+		}
+	}
+	if pi < 0 || pi >= len(phi.Edges) {
+		return a.killReg(s, phi)
+	}
+	e := phi.Edges[pi]
+	pt := a.P.Canon(f, phi)
+	name := pt.S
+	var kept []*Atom
+	for i, at := range sp.Atoms {
+		if at.Kind != Cmp || at.History || at.skipKill {
+			continue
+		}
+		other, flipped := "", false
+		switch {
+		case at.A == name && !containsTerm(at.B, name):
+			other = at.B
+		case at.B == name && !containsTerm(at.A, name):
+			other, flipped = at.A, true
+		default:
+			continue
+		}
+		// e = phi + k
+		if bo, ok := e.(*ssa.BinOp); ok && bo.Op == token.ADD {
+			var k int64
+			if c, ok := bo.Y.(*ssa.Const); ok && bo.X == ssa.Value(phi) {
+				k, _ = constInt(c)
+			} else if c, ok := bo.X.(*ssa.Const); ok && bo.Y == ssa.Value(phi) {
+				k, _ = constInt(c)
+			}
+			if k > 0 {
+				lo, hi := LT, GT // the value below / above which the register moves away from
+				if flipped {
+					lo, hi = GT, LT
+				}
+				s = sp.Map(s, i, func(_ int, old int) uint32 {
+					if old == lo {
+						if k > 1 {
+							return 1<<LT | 1<<EQ | 1<<GT
+						}
+						return 1<<uint(lo) | 1<<EQ
+					}
+					return 1 << uint(hi)
+				})
+				a.absorb(at, pt)
+				kept = append(kept, at)
+				continue
+			}
+		}
+		et := a.P.Canon(f, e)
+		if containsTerm(et.S, name) {
+			continue
+		}
+		last := b.Instrs[len(b.Instrs)-1]
+		if et.readsMemory() && !a.fresh(e, last, nil) {
+			continue
+		}
+		if et.S == other {
+			s = sp.Map(s, i, func(int, int) uint32 { return 1 << EQ })
+			a.absorb(at, pt, et)
+			kept = append(kept, at)
+			continue
+		}
+		for j, src := range sp.Atoms {
+			if j == i || src.Kind != Cmp || src.History {
+				continue
+			}
+			same := src.A == et.S && src.B == other
+			opp := src.B == et.S && src.A == other
+			if !same && !opp {
+				continue
+			}
+			flip := opp != flipped
+			jj := j
+			s = sp.Map(s, i, func(point int, _ int) uint32 {
+				v := sp.Val(point, jj)
+				if flip {
+					v = 2 - v
+				}
+				return 1 << uint(v)
+			})
+			a.absorb(at, pt, src.dep)
+			kept = append(kept, at)
+			break
+		}
+	}
+	for _, at := range kept {
+		at.skipKill = true
+	}
+	s = a.killReg(s, phi)
+	for _, at := range kept {
+		at.skipKill = false
+	}
+	return Intersect(s, sp.consistent)
 }
 
 // splitByValue splits st by the boolean value v used by instruction user (an If or a Return) of
@@ -372,10 +482,123 @@ func (a *Analysis) branch(f *Frame, cond ssa.Value, st State, use ssa.Instructio
 		fmt.Fprintf(os.Stderr, "TRACE   cond %s matched=%v\n", a.P.Canon(f, cond).S, ok)
 	}
 	if !ok {
-		return st, st
+		return a.impliedByMinMax(f, cond, st, use, via)
 	}
 	all := uint32(1)<<uint(a.Space.Atoms[atom].N) - 1
 	return a.Space.Filter(st, atom, mask), a.Space.Filter(st, atom, all&^mask)
+}
+
+// minMaxArgs recognises v as Min(A, B) / Max(A, B) (internal/numeric or the builtins).
+func minMaxArgs(v ssa.Value) (isMin bool, args []ssa.Value, ok bool) {
+	for {
+		c, isConv := v.(*ssa.Convert)
+		if !isConv {
+			break
+		}
+		v = c.X
+	}
+	call, isCall := v.(*ssa.Call)
+	if !isCall || len(call.Common().Args) != 2 {
+		return false, nil, false
+	}
+	name := ""
+	if b, isB := call.Common().Value.(*ssa.Builtin); isB {
+		name = b.Name()
+	} else if callee := call.Common().StaticCallee(); callee != nil {
+		pk := callee.Pkg
+		if pk == nil && callee.Origin() != nil {
+			pk = callee.Origin().Pkg
+		}
+		if pk != nil && pk.Pkg.Path() == ModulePath+"/internal/numeric" {
+			name = strings.ToLower(callee.Name())
+			if i := strings.IndexByte(name, '['); i >= 0 {
+				name = name[:i]
+			}
+		}
+	}
+	switch name {
+	case "min":
+		return true, call.Common().Args, true
+	case "max":
+		return false, call.Common().Args, true
+	}
+	return false, nil, false
+}
+
+// impliedByMinMax handles the one-directional consequences of a comparison with Min/Max:
+// X < Min(A,B) implies X < A and X < B (nothing follows from its negation), X > Max(A,B) implies X > A and X > B, and
+// symmetrically for the negations of X >= Min(A,B) and X <= Max(A,B).
+func (a *Analysis) impliedByMinMax(f *Frame, cond ssa.Value, st State, use ssa.Instruction, via *ssa.BasicBlock) (State, State) {
+	neg := false
+	for {
+		u, ok := cond.(*ssa.UnOp)
+		if !ok || u.Op != token.NOT {
+			break
+		}
+		neg = !neg
+		cond = u.X
+	}
+	b, ok := cond.(*ssa.BinOp)
+	if !ok {
+		return st, st
+	}
+	op := b.Op
+	x, m := b.X, b.Y
+	isMin, args, ok := minMaxArgs(m)
+	if !ok {
+		isMin, args, ok = minMaxArgs(x)
+		if !ok {
+			return st, st
+		}
+		x = m
+		op = flipOp(op)
+	}
+	// which side of the branch carries the implication, and with which operator
+	var onTrue bool
+	var impl token.Token
+	switch {
+	case isMin && (op == token.LSS || op == token.LEQ):
+		onTrue, impl = true, op
+	case isMin && op == token.GEQ:
+		onTrue, impl = false, token.LSS
+	case isMin && op == token.GTR:
+		onTrue, impl = false, token.LEQ
+	case !isMin && (op == token.GTR || op == token.GEQ):
+		onTrue, impl = true, op
+	case !isMin && op == token.LEQ:
+		onTrue, impl = false, token.GTR
+	case !isMin && op == token.LSS:
+		onTrue, impl = false, token.GEQ
+	default:
+		return st, st
+	}
+	if use != nil && !a.fresh(cond, use, via) {
+		return st, st
+	}
+	xt := a.P.Canon(f, x)
+	out := st
+	for _, arg := range args {
+		at := a.P.Canon(f, arg)
+		for i, atom := range a.Space.Atoms {
+			if atom.Kind != Cmp || atom.History {
+				continue
+			}
+			var mask uint32
+			if atom.A == xt.S && atom.B == at.S {
+				mask, _ = cmpMask(impl)
+			} else if atom.A == at.S && atom.B == xt.S {
+				mask, _ = cmpMask(flipOp(impl))
+			} else {
+				continue
+			}
+			a.absorb(atom, xt, at)
+			out = a.Space.Filter(out, i, mask)
+		}
+	}
+	if onTrue != neg {
+		return out, st
+	}
+	return st, out
 }
 
 // fresh reports whether every memory read that v is computed from happened "just before" use: in the same block
@@ -383,6 +606,9 @@ func (a *Analysis) branch(f *Frame, cond ssa.Value, st State, use ssa.Instructio
 // that may write memory. Only then does a comparison of v describe the CURRENT value of the terms it canonicalises to.
 func (a *Analysis) fresh(v ssa.Value, use ssa.Instruction, via *ssa.BasicBlock) bool {
 	var reads []ssa.Instruction
+	// terms bound to parameters / captured variables of an inlined activation: they were evaluated by the caller
+	// before the call, so whatever they read must not have changed since the activation was entered
+	var entryDeps []*Term
 	seen := map[ssa.Value]bool{}
 	var walk func(x ssa.Value) bool
 	walk = func(x ssa.Value) bool {
@@ -391,7 +617,14 @@ func (a *Analysis) fresh(v ssa.Value, use ssa.Instruction, via *ssa.BasicBlock) 
 		}
 		seen[x] = true
 		switch y := x.(type) {
-		case *ssa.Const, *ssa.Parameter, *ssa.FreeVar, *ssa.Global, *ssa.Function, *ssa.Alloc, *ssa.Phi, *ssa.Builtin:
+		case *ssa.Parameter, *ssa.FreeVar:
+			if fr := a.curFrame; fr != nil && fr.Parent != nil && fr.Fn == use.Parent() {
+				if bt := fr.Bind[y]; bt != nil && bt.readsMemory() {
+					entryDeps = append(entryDeps, bt)
+				}
+			}
+			return true
+		case *ssa.Const, *ssa.Global, *ssa.Function, *ssa.Alloc, *ssa.Phi, *ssa.Builtin:
 			return true
 		case *ssa.UnOp:
 			if y.Op == token.MUL {
@@ -463,6 +696,14 @@ func (a *Analysis) fresh(v ssa.Value, use ssa.Instruction, via *ssa.BasicBlock) 
 			return false
 		}
 	}
+	for _, dep := range entryDeps {
+		if !a.unchangedBetween(nil, use, via, dep) {
+			if traceFn != "" {
+				fmt.Fprintf(os.Stderr, "TRACE   stale binding %s before %s\n", dep.S, a.P.InstrPos(use))
+			}
+			return false
+		}
+	}
 	return true
 }
 
@@ -470,8 +711,14 @@ func (a *Analysis) fresh(v ssa.Value, use ssa.Instruction, via *ssa.BasicBlock) 
 // value that arrives through a phi), no instruction may change what r read. dep is the canonical term of the read
 // (nil = unknown: any writer counts).
 func (a *Analysis) unchangedBetween(r, use ssa.Instruction, via *ssa.BasicBlock, dep *Term) bool {
-	rb := r.Block()
 	ub := use.Block()
+	var rb *ssa.BasicBlock
+	if r == nil {
+		// from the entry of the function
+		rb = use.Parent().Blocks[0]
+	} else {
+		rb = r.Block()
+	}
 	target := ub
 	if via != nil {
 		target = via
@@ -514,9 +761,9 @@ func (a *Analysis) unchangedBetween(r, use ssa.Instruction, via *ssa.BasicBlock,
 		if !bwd[b] {
 			continue
 		}
-		started := b != rb
+		started := b != rb || r == nil
 		for _, in := range b.Instrs {
-			if in == r {
+			if r != nil && in == r {
 				started = true
 				continue
 			}
@@ -579,6 +826,11 @@ func (a *Analysis) mayChange(in ssa.Instruction, dep *Term) bool {
 				return dep.Regs[al]
 			}
 			return dep.HasMap
+		}
+		for _, fl := range structFields(x.Addr.Type()) {
+			if dep.Fields[fl] {
+				return true
+			}
 		}
 		return dep.Shared || dep.HasMap
 	case *ssa.MapUpdate:
@@ -969,7 +1221,9 @@ func isNodeMutex(v ssa.Value) bool {
 func (a *Analysis) transfer(f *Frame, instr ssa.Instruction, st State) State {
 	sp := a.Space
 	if v, ok := instr.(ssa.Value); ok {
-		st = a.killReg(st, v)
+		if _, isPhi := instr.(*ssa.Phi); !isPhi { // a phi is redefined on the incoming edge (phiTransfer)
+			st = a.killReg(st, v)
+		}
 	}
 	switch in := instr.(type) {
 	case *ssa.Store:
@@ -1020,7 +1274,9 @@ func (a *Analysis) transfer(f *Frame, instr ssa.Instruction, st State) State {
 					return st
 				}
 			}
+			a.runDefersAt = in
 			st, _ = a.call(f, ds[i], ds[i].Common(), st)
+			a.runDefersAt = nil
 			if a.PostCall != nil && !st.IsEmpty() {
 				st = a.PostCall(a, f, ds[i], st)
 			}
@@ -1074,7 +1330,7 @@ func (a *Analysis) store(f *Frame, instr ssa.Instruction, addr, val ssa.Value, s
 	}
 	// loc := loc + k (k > 0): orderings that mention loc directly shift instead of being forgotten
 	var shifted []*Atom
-	if isIncrementOf(a.P, f, val, loc) {
+	if k := incrementOf(a.P, f, val, loc); k > 0 && (instr == nil || a.fresh(val, instr, nil)) {
 		pre := st
 		for i, atom := range sp.Atoms {
 			if atom.Kind != Cmp || atom.History || atom.A == atom.B {
@@ -1084,6 +1340,9 @@ func (a *Analysis) store(f *Frame, instr ssa.Instruction, addr, val ssa.Value, s
 			case atom.A == loc && !containsTerm(atom.B, loc):
 				pre = sp.Map(pre, i, func(pt, old int) uint32 {
 					if old == LT {
+						if k > 1 {
+							return 1<<LT | 1<<EQ | 1<<GT
+						}
 						return 1<<LT | 1<<EQ
 					}
 					return 1 << GT
@@ -1092,6 +1351,9 @@ func (a *Analysis) store(f *Frame, instr ssa.Instruction, addr, val ssa.Value, s
 			case atom.B == loc && !containsTerm(atom.A, loc):
 				pre = sp.Map(pre, i, func(pt, old int) uint32 {
 					if old == GT {
+						if k > 1 {
+							return 1<<LT | 1<<EQ | 1<<GT
+						}
 						return 1<<GT | 1<<EQ
 					}
 					return 1 << LT
@@ -1128,6 +1390,11 @@ func (a *Analysis) store(f *Frame, instr ssa.Instruction, addr, val ssa.Value, s
 			st = a.killReg(st, al)
 		} else {
 			st = a.killMap(st, a.P.Canon(f, x.X))
+		}
+	default:
+		// a store through a pointer value (*p = v): if the pointee is a struct every field of it is rewritten
+		for _, fl := range structFields(addr.Type()) {
+			st = a.killField(st, fl)
 		}
 	}
 	st = a.killLoc(st, loc)
@@ -1215,24 +1482,47 @@ func (a *Analysis) store(f *Frame, instr ssa.Instruction, addr, val ssa.Value, s
 	return st
 }
 
-// isIncrementOf reports whether val is (load of loc) + k with a positive integer constant k.
-func isIncrementOf(p *Program, f *Frame, val ssa.Value, loc string) bool {
+// incrementOf returns k if val is (load of loc) + k with a positive integer constant k, else 0.
+func incrementOf(p *Program, f *Frame, val ssa.Value, loc string) int64 {
 	b, ok := val.(*ssa.BinOp)
 	if !ok || b.Op != token.ADD {
-		return false
+		return 0
 	}
-	pos := func(v ssa.Value) bool {
+	pos := func(v ssa.Value) int64 {
 		c, ok := v.(*ssa.Const)
 		if !ok {
-			return false
+			return 0
 		}
 		k, ok := constInt(c)
-		return ok && k > 0
+		if !ok || k <= 0 {
+			return 0
+		}
+		return k
 	}
-	if pos(b.Y) && p.Canon(f, b.X).S == loc {
-		return true
+	if k := pos(b.Y); k > 0 && p.Canon(f, b.X).S == loc {
+		return k
 	}
-	return pos(b.X) && p.Canon(f, b.Y).S == loc
+	if k := pos(b.X); k > 0 && p.Canon(f, b.Y).S == loc {
+		return k
+	}
+	return 0
+}
+
+// structFields returns the fields of S if t is *S for a struct type S (nil otherwise).
+func structFields(t types.Type) []*types.Var {
+	pt, ok := t.Underlying().(*types.Pointer)
+	if !ok {
+		return nil
+	}
+	st, ok := pt.Elem().Underlying().(*types.Struct)
+	if !ok {
+		return nil
+	}
+	var out []*types.Var
+	for i := 0; i < st.NumFields(); i++ {
+		out = append(out, st.Field(i))
+	}
+	return out
 }
 
 // isFreshObject reports whether v is the address of an object allocated by this instruction.
@@ -1349,19 +1639,62 @@ func (a *Analysis) call(f *Frame, site ssa.CallInstruction, c *ssa.CallCommon, s
 		return a.killByEffects(st, callee), nil
 	}
 	sub := &Frame{Fn: callee, Parent: f, Site: site, Bind: map[ssa.Value]*Term{}, cache: map[ssa.Value]*Term{}, Depth: f.Depth + 1}
+	// an argument (or captured variable) denotes the value it had when it was evaluated; it is bound to its term
+	// only if what the term reads cannot have changed between that evaluation and the call (for a deferred call:
+	// the point where the defers run)
+	at := ssa.Instruction(site)
+	if a.runDefersAt != nil {
+		at = a.runDefersAt
+	}
 	for i, par := range callee.Params {
 		if i < len(c.Args) {
-			sub.Bind[par] = a.P.Canon(f, c.Args[i])
+			t := a.P.Canon(f, c.Args[i])
+			if t.readsMemory() && !a.fresh(c.Args[i], at, nil) {
+				t = capturedCopy(t)
+			}
+			sub.Bind[par] = t
+			sub.bindKey += "|" + t.S
 		}
 	}
 	for i, fv := range callee.FreeVars {
 		if i < len(bindings) {
-			sub.Bind[fv] = a.P.cellTerm(f, bindings[i])
+			t := a.P.cellTerm(f, bindings[i])
+			if al, ok := bindings[i].(*ssa.Alloc); ok && t.readsMemory() {
+				if v := singleStore(al); v != nil && !a.fresh(v, at, nil) {
+					t = capturedCopy(t)
+				}
+			}
+			sub.Bind[fv] = t
+			sub.bindKey += "|" + t.S
 		}
 	}
+	a.curFrame = f
 	ex := a.analyze(sub, st)
+	a.curFrame = f
 	return ex.All, ex
 }
+
+// capturedCopy names a value that was computed from memory which may have changed since: the name keeps the
+// expression (so that rules can still recognise "the value that was read there"), marked with '@' so that it
+// never matches an atom about the current contents of that memory, and it depends on no memory any more.
+func capturedCopy(t *Term) *Term {
+	s := t.S
+	if strings.HasPrefix(s, "&") {
+		s = "&@" + s[1:]
+	} else {
+		s = "@" + s
+	}
+	c := newTerm(s)
+	for k := range t.Regs {
+		c.Regs[k] = true
+	}
+	c.Volatile = t.Volatile
+	return c
+}
+
+// ValueName strips the captured-value marks of a canonical term: two terms with the same ValueName denote the value
+// of the same expression, possibly evaluated at different moments.
+func ValueName(s string) string { return strings.ReplaceAll(s, "@", "") }
 
 // cellTerm canonicalises the address of a captured variable. If the variable is assigned
 // exactly once (the usual spill of a parameter), loads through it denote the stored value.
